@@ -26,7 +26,7 @@ meta = {
     "needs_to_manifest": needs,
     "origin": "written by an independent sub-agent that saw only the property text and its own scratch worktree",
     "confirmed_by_me": {
-        "how": "scratch worktree /tmp/wt-verify at /repo HEAD: git apply patch.diff + demo.diff; cargo test --workspace --no-fail-fast --offline; then git apply -R patch.diff and the same command again",
+        "how": "scratch worktree " + os.environ.get("SEED_WT", "/tmp/wt-verify") + " at /repo HEAD: git apply patch.diff + demo.diff; cargo test --workspace --no-fail-fast --offline; then git apply -R patch.diff and the same command again",
         "result": sect.strip() or "see DESIGN.md",
     },
     "caught_by": caught,
